@@ -13,7 +13,7 @@ EXPLANATION = (
     "beyond RCV.NXT (circular comparison of the peeked segment's SEQ with self.rcv.nxt) or the state is SYN-SENT, and "
     "pops exactly the segment it peeked; (T-ACK-PRUNE) every write of SND.UNA is followed on every path to a "
     "non-deleting return by remove_acked_from_retransmission(SND.UNA) (LAST-ACK is the tabled exception); "
-    "(T-HEAPORD) the reordering heap's Ord for Segment is the reversed circular order of SEQ at every distance and base (shared with C12); (T-APPEND) the send and receive byte streams of the TCB grow only at their end; (T-RETX-ARM) the timeout branch of advance_time re-arms every queued segment, every element of the "
+    "(T-ACKOK) SYN-RECEIVED becomes ESTABLISHED exactly on the branch SND.UNA < SEG.ACK =< SND.NXT; (T-HEAPORD) the reordering heap's Ord for Segment is the reversed circular order of SEQ at every distance and base (shared with C12); (T-APPEND) the send and receive byte streams of the TCB grow only at their end; (T-RETX-ARM) the timeout branch of advance_time re-arms every queued segment, every element of the "
     "retransmission queue is built by Transmit::new (armed), and segments() emits exactly the armed ones; "
     "(T-SYNSENT, T-WINDOW) shared with C17. Breaking any of them breaks the stream for some admissible schedule. "
     "Not decided: prefix/exactly-once/convergence themselves (schedules x byte strings need execution or a proof).")
@@ -192,6 +192,47 @@ def check_heap_order(ctx, rule="T-HEAPORD"):
         ctx.ok(rule, key, b.span, "Ord for Segment is the reversed circular order of header.seq on all %d (base, distance) points, including across 2^32 and 2^31" % n)
 
 
+def check_synrcvd_ack(ctx, rule="T-ACKOK"):
+    """SYN-RECEIVED becomes ESTABLISHED on any acceptable ACK, SND.UNA < SEG.ACK =< SND.NXT (RFC 9293 3.10.7.4) - not only
+    on the ACK of the bare SYN: data written before the handshake completes moves SND.NXT, and a cumulative ACK that
+    covers it must complete the handshake instead of drawing a reset. The write of ESTABLISHED reached from
+    SYN-RECEIVED must sit on the true branch of mod_bounded(SND.UNA, Lt, SEG.ACK, Leq, SND.NXT)."""
+    prog = ctx.prog()
+    ps = prog.method("Tcb", "process_segment")
+    m = T.TcbModel(prog, ps)
+    g = cfg(ps)
+    n = 0
+    for bb, i, loc, new, tuples in m.transitions():
+        if new != "Established" or not any(t[1] == "SynReceived" for t in tuples):
+            continue
+        n += 1
+        ok = False
+        seen = []
+        for s_ in g.dom_chain(bb):
+            if ps.term(s_)[0] != "switch":
+                continue
+            c = dep.switch_condition(ps, s_)
+            if not (c and c["kind"] == "call"):
+                continue
+            ck = F.callee_key(c["term"]) or ""
+            tr, fa = dep.bool_branches(ps, s_)
+            if not (g.dominates(tr, bb) and not g.dominates(fa, bb)):
+                continue
+            if not any(t[1] == "SynReceived" for t in m.at_term(s_)):
+                continue
+            seen.append(ck.rsplit("::", 1)[-1])
+            if ck.endswith("modular_cmp::mod_bounded"):
+                a = [dep.arg_origins(ps, c["call_bb"], k, through_calls=False) for k in range(5)]
+                kinds = [next((x[2] for x in a[k] if x[0] == "agg" and str(x[1]).endswith("ModCmp")), None) for k in (1, 3)]
+                if dep.has_field(a[0], "SendSequenceSpace", "una") and dep.has_field(a[2], "TcpHeader", "ack") and dep.has_field(a[4], "SendSequenceSpace", "nxt") \
+                        and kinds == ["Lt", "Leq"] and not dep.has_field(a[0], "TcpHeader", "ack"):
+                    ok = True
+        (ctx.ok if ok else ctx.bad)(rule, "%s:SynReceived->Established" % rule, loc,
+            "SYN-RECEIVED -> ESTABLISHED on the branch SND.UNA < SEG.ACK =< SND.NXT" if ok else
+            "SYN-RECEIVED -> ESTABLISHED is not decided by SND.UNA < SEG.ACK =< SND.NXT (guards seen: %s): an ACK that also covers data sent before the handshake completed is treated as unacceptable and answered with a reset" % (", ".join(seen) or "none"))
+    ctx.require(n >= 1, "%s: the SYN-RECEIVED -> ESTABLISHED transition was not found" % rule)
+
+
 def check_inorder(ctx):
     """T-INORDER (shared with C03: a FIN is a queued segment like any other)."""
     prog = ctx.prog()
@@ -275,6 +316,7 @@ def run(ctx):
     ps = prog.method("Tcb", "process_segment")
     check_inorder(ctx)
     check_heap_order(ctx)
+    check_synrcvd_ack(ctx)
 
     # ---------------------------------------------------------------- T-ACK-PRUNE
     m = T.TcbModel(prog, ps)
